@@ -630,7 +630,7 @@ impl CanonicalizeContext {
 			};
 		}
 
-		if ELEMENTS_WITH_FIXED_NUMBER_OF_CHILDREN.contains(element_name) {
+		if ELEMENTS_WITH_FIXED_NUMBER_OF_CHILDREN.contains(element_name) || element_name == "mmultiscripts" || element_name == "mlongdiv" {
 			match element_name {
 				"munderover" | "msubsup" => if n_children != 3 {
 					bail!("{} should have 3 children:\n{}", element_name, mml_to_string(&mathml));
@@ -638,7 +638,7 @@ impl CanonicalizeContext {
 				"mmultiscripts" => {
 					let has_prescripts = mathml.children().iter()
 							.any(|&child| name(&as_element(child)) == "mprescripts");
-					if has_prescripts ^ (n_children % 2 == 0) {
+					if n_children == 0 || (has_prescripts ^ (n_children % 2 == 0)) {
 						bail!("{} has the wrong number of children:\n{}", element_name, mml_to_string(&mathml));
 					}
 				},
@@ -772,7 +772,8 @@ impl CanonicalizeContext {
 			let parent = get_parent(mathml);
 			name(&parent).to_string()
 		};
-		let parent_requires_child = ELEMENTS_WITH_FIXED_NUMBER_OF_CHILDREN.contains(&parent_name);
+		// the base and the scripts of mmultiscripts are positional, so an empty one can't be dropped either
+		let parent_requires_child = ELEMENTS_WITH_FIXED_NUMBER_OF_CHILDREN.contains(&parent_name) || parent_name == "mmultiscripts";
 
 		// handle empty leaves -- leaving it empty causes problems with the speech rules
 		if is_leaf(mathml) && !EMPTY_ELEMENTS.contains(element_name) && as_text(mathml).is_empty() {
@@ -1136,6 +1137,9 @@ impl CanonicalizeContext {
 						}
 					}
 					let mathml = if element_name == "mmultiscripts" {clean_mmultiscripts(mathml).unwrap()} else {mathml};
+					if element_name == "mmultiscripts" && name(&mathml) != "mmultiscripts" {
+						return Some(mathml);	// no scripts were left: this is the (already cleaned) base
+					}
 					if !is_chemistry_off(mathml) {
 						let likely_chemistry = likely_adorned_chem_formula(mathml);
 						// debug!("likely_chemistry={}, {}", likely_chemistry, mml_to_string(&mathml));
